@@ -434,7 +434,7 @@ performs `run`: any number of heights, each with arbitrary transactions and any 
 before it was killed (at any point: inside the handshake, while the WAL is opened, at any step
 of any height) — or it stalled after its start.  A height a restarted process resumes in the
 middle is traced like a fresh one (its re-signing and re-logging leave the same sign state and
-the same markers; see DESIGN/README of C33).
+the same markers; the correspondence does not address the individual steps of such a height).
 `Reach d`: `d` is the durable world after some history of kills and restarts from genesis. -/
 
 inductive Heights : Disk → List Ev → Prop
